@@ -8,7 +8,7 @@
    generation (if any) is in the map, the map's RwLock (readers hold it only inside one step).
    The inode number is the same for every generation (number mapping kept / deterministic: C08).
 
-   Program counters (the yield points of the verif hook are L0,L1,L2,L3,F0):
+   Program counters (the yield points of the verif hook are L0,L1,L2,L3,F0,F2):
      L0 probe (read lock)  -> hit: L1 | miss: L3
      L1 load refcount      -> 0: L0 (retry) | L2
      L2 compare_exchange   -> ok: done | fail: L0
@@ -140,7 +140,7 @@ Definition cinit (r0 : N) (progs : nat -> list cop) : cstate :=
 (* ---------------------------------------------------------------- running a schedule given at yield-point granularity *)
 (* the hook's yield points: a thread runs from one of them to the next *)
 Definition at_yield (p : pcs) : bool :=
-  match p with L0 | L1 | L2 | L3 | F0 => true | _ => false end.
+  match p with L0 | L1 | L2 | L3 | F0 | F2 => true | _ => false end.
 Definition finished (th : thread) : bool :=
   match pc th, prog th with PIdle, [] => true | _, _ => false end.
 
@@ -160,7 +160,7 @@ Fixpoint macro (fuel : nat) (s : cstate) (t : nat) : option cstate :=
 (* threads are started one after the other up to their first yield point, then the schedule
    (a list of thread ids) is followed; the yield id reached after each scheduling step is recorded *)
 Definition pc_id (th : thread) : N :=
-  match pc th with L0 => 0 | L1 => 1 | L2 => 2 | L3 => 3 | F0 => 4 | _ => 9 end.
+  match pc th with L0 => 0 | L1 => 1 | L2 => 2 | L3 => 3 | F0 => 4 | F2 => 5 | _ => 9 end.
 
 Fixpoint run_sched (s : cstate) (sched : list nat) : option (list N * cstate) :=
   match sched with
